@@ -122,13 +122,17 @@ def judge(seq, its, sess, o, plan):
     import functools
 
     @functools.lru_cache(maxsize=None)
-    def ok(i, j):
+    def ok(i, j, prev_lost):
         if i == len(plan):
             return j == len(got)
-        if j < len(got) and plan[i][0] == got[j] and ok(i + 1, j + 1):
+        if j < len(got) and plan[i][0] == got[j] and ok(i + 1, j + 1, False):
             return True
-        return (not plan[i][1]) and ok(i + 1, j)
-    if not ok(0, 0):
+        # may be lost: first packet after a disturbance that contains the marker -- where the bytes of a
+        # packet that was itself lost count as part of the disturbance if noise follows them (its header
+        # is a marker; its tail plus the noise can form another one)
+        may = (not plan[i][1]) or (prev_lost and plan[i][2])
+        return may and ok(i + 1, j, True)
+    if not ok(0, 0, False):
         views = [p[0] for p in plan]
         extra = [g for g in got if g not in views]
         if extra or len(got) > len(plan):
@@ -137,7 +141,7 @@ def judge(seq, its, sess, o, plan):
         else:
             out.append(("packet_lost", {"delivered": len(got), "of": len(plan)},
                         f"a valid packet that follows marker-free input (or is not the first after a disturbance) was not delivered: "
-                        f"delivered sids {[g[7][0][4] for g in got]}, valid sids {[v[7][0][4] for v in views]}, must {[m for _, m in plan]}"))
+                        f"delivered sids {[g[7][0][4] for g in got]}, valid sids {[v[7][0][4] for v in views]}, must {[p[1] for p in plan]}"))
     mx = max(sess.pending_log) if sess.pending_log else 0
     if mx > PENDING_BOUND:
         out.append(("buffer_unbounded", {"pending": mx}, f"client holds back {mx} bytes after a read (bound {PENDING_BOUND})"))
@@ -152,7 +156,7 @@ def make_plan(seq, its):
     for name in seq:
         if name in VALID:
             must = (MARK not in run) if have_run else True
-            plan.append((common.msg_view(dec.decode_usb(its[name])), must))
+            plan.append((common.msg_view(dec.decode_usb(its[name])), must, have_run))
             run, have_run = b"", False
         else:
             # a disturbance may also *end* with 0xAA and be followed by a packet: 'AA AA 55' is still found
@@ -201,7 +205,7 @@ def _task_a(args):
                              "case": {"part": "a", "stream": list(seq), "cuts": list(cuts), "seed": seed}})
             if sample is None and len(seq) >= 2 and cuts:
                 sample = {"part": "a", "stream": list(seq), "cuts": list(cuts)[:8], "delivered": len(o.received),
-                          "must": [m for _, m in plan], "max_pending": max(s.pending_log) if s.pending_log else 0}
+                          "must": [p[1] for p in plan], "max_pending": max(s.pending_log) if s.pending_log else 0}
         if len(vios) > 200:
             break
     return {"runs": runs, "nontrivial": nontriv, "outcomes": len(outcomes), "vios": vios, "sample": sample, "streams": len(seqs)}
